@@ -154,6 +154,30 @@ Proof.
   split; [now apply Ok_hdr|]. split; [now apply Ok_body | now apply Ok_eq_checker].
 Qed.
 
+Theorem C13_enum_header_pieces_come_from_the_item :
+  forall (user : tok -> Prop) en h vs e ir,
+    ok user (TI (e_name en)) -> generics_okS user (e_generics en) ->
+    ha_items h = [] -> hattrs_bounds_okS user h -> entry_okS user e -> Forall (ventry_hdr_okS user) vs ->
+    enum_entry en h vs e = Ok (Ok [ir]) ->
+    hdr_ok user (ir_hdr ir).
+Proof. exact enum_hdr_ok. Qed.
+
+(** every token of every impl derived from an enum is from the closed vocabulary or one the user wrote in the item *)
+Theorem C13_enum_impl_tokens :
+  forall (user : tok -> Prop) en h vs e ir,
+    ok user (TI (e_name en)) -> generics_okS user (e_generics en) ->
+    ha_items h = [] -> hattrs_bounds_okS user h -> dattr_ok user h -> entry_okS user e ->
+    Forall (ventry_hdr_okS user) vs -> Forall (ventry_ok user) vs ->
+    enum_entry en h vs e = Ok (Ok [ir]) ->
+    TOk user (r_hdr (ir_hdr ir)) /\ TOk user (r_body (ir_hdr ir) (ir_body ir)) /\
+    match r_eq_checker (ir_hdr ir) (ir_body ir) with Some c => TOk user c | None => True end.
+Proof.
+  intros user en h vs e ir Hn Hg Hi Hb Hd He Hvh Hv Hbuild.
+  pose proof (enum_hdr_ok user en h vs e ir Hn Hg Hi Hb He Hvh Hbuild) as Hh.
+  pose proof (enum_bodies_ok user en h vs e ir Hn Hd Hv Hbuild) as B.
+  split; [now apply Ok_hdr|]. split; [now apply Ok_body | now apply Ok_eq_checker].
+Qed.
+
 Definition user_name (s : string) : bool :=      (* the sentinel names of the skeletons below *)
   str_mem s ["U"; "u"; "V"; "w"].
 
@@ -234,3 +258,5 @@ Print Assumptions C13_enum_body_pieces_come_from_the_item.
 Print Assumptions C13_struct_body_tokens.
 Print Assumptions C13_struct_header_pieces_come_from_the_item.
 Print Assumptions C13_struct_impl_tokens.
+Print Assumptions C13_enum_header_pieces_come_from_the_item.
+Print Assumptions C13_enum_impl_tokens.
